@@ -194,7 +194,8 @@ def gen_cases(ctx):
         w[0] = rng.choice([4.2e7, -4.2e7, 1e9, -1e9, 3e5], size=w.shape[1])
       w = w.tolist()
     kp_offset = float(rng.choice([5e7, 1.7e9, -3e6])) if (entry == "layer" and rng.rand() < .3) else 0.0
-    yield {"kind": entry, "cfg": cfg, "mode": mode, "kclass": kclass, "w": w, "kp_offset": kp_offset,
+    learned = bool(entry == "layer" and cfg["conv"] == 0 and not cfg["cyclic"] and not kp_offset and nk > 2 and rng.rand() < .4)
+    yield {"kind": entry, "cfg": cfg, "mode": mode, "kclass": kclass, "w": w, "kp_offset": kp_offset, "learned_keypoints": learned,
            "kseed": int(rng.randint(2**31 - 1)), "labels": labels,
            "exec": modes.pick(rng, (0.7, 0.3, 0.0), allow=("eager", "graph"))}
 
@@ -283,7 +284,11 @@ def run_case(ctx, case):
         input_keypoints=kp.tolist(), units=cfg["units"], output_min=omin, output_max=omax,
         clamp_min=bool(cfg.get("clamp_min")), clamp_max=bool(cfg.get("clamp_max")),
         monotonicity=cfg["mono"], convexity=cfg["conv"], is_cyclic=bool(cfg["cyclic"]),
-        num_projection_iterations=cfg["iters"], impute_missing=True)
+        num_projection_iterations=cfg["iters"], impute_missing=True,
+        # learned interior keypoints: the layer then builds its weight constraint without segment lengths
+        input_keypoints_type="learned_interior" if case.get("learned_keypoints") else "fixed")
+    if case.get("learned_keypoints"):
+      ctx.cls("layer:learned_interior")
     layer.build((None, 1))
     layer.keypoints_outputs()        # queried before the weights change as well as after
     layer.kernel.assign(w)
